@@ -1,7 +1,7 @@
 // C05 harness: load problem + mesh through the real FSolver, renumber (Cuthill), print the exact state the first pass of
 // Static2D sees (hex doubles) in the `assemble-m` line protocol, then run the real Static2D so that the guarded hook dumps every
 // system handed to PCGSolve (XFEMM_VERIF_DUMPSYS); the FIRST dumped system is the pass with Iter == 0.
-//   usage: assemble_m_harness <base>     (planar magnetostatics without air-gap elements / previous solution / Lua magnet directions)
+//   usage: assemble_m_harness <base>     (planar or axisymmetric magnetostatics without air-gap elements / previous solution / Lua magnet directions)
 #include "hexio.h"
 #include "fsolver.h"
 #include "femmconstants.h"
@@ -12,24 +12,26 @@ int main(int argc,char**argv){
     if(!s.LoadProblemFile()){ printf("loadproblem-failed\n"); return 0; }
     if(s.LoadMesh(false)!=NOERROR){ printf("loadmesh-error\n"); return 0; }
     if(!s.Cuthill(false)){ printf("cuthill-failed\n"); return 0; }
-    if(s.Frequency!=0 || s.ProblemType!=femm::PLANAR || s.NumAirGapElems!=0 || !s.previousSolutionFile.empty()){ printf("unsupported\n"); return 0; }
+    if(s.Frequency!=0 || s.NumAirGapElems!=0 || !s.previousSolutionFile.empty()){ printf("unsupported\n"); return 0; }
+    bool axi=(s.ProblemType!=femm::PLANAR);
     for(int i=0;i<s.NumBlockLabels;i++){ s.GetFillFactor(i); if(!s.labellist[i].MagDirFctn.empty()){ printf("unsupported\n"); return 0; } }
     static const double units[]={2.54,0.1,1.,100.,0.00254,1.e-04};
     double c=PI*4.e-05;
     printf("consts %s %s %s %s %s %s\n",d2tok(c).c_str(),d2tok(DEG).c_str(),d2tok(PI).c_str(),d2tok(units[s.LengthUnits]).c_str(),d2tok(0.01).c_str(),d2tok(0.0001).c_str());
-    printf("problem %d %d\n",s.Coords==0?0:1,s.BandWidth);
+    printf("problem %d %d %d\n",s.Coords==0?0:1,s.BandWidth,axi?1:0);
+    printf("ext %s %s %s %s\n",d2tok(s.extRo*units[s.LengthUnits]).c_str(),d2tok(s.extRi*units[s.LengthUnits]).c_str(),d2tok(s.extZo*units[s.LengthUnits]).c_str(),d2tok(1.e-06).c_str());
     for(auto&p:s.nodeproplist) printf("np %s %s %s\n",d2tok(p.J.re).c_str(),d2tok(p.J.im).c_str(),d2tok(p.A.re).c_str());
     for(auto&p:s.lineproplist) printf("lp %d %s %s %s %s %s %s\n",p.BdryFormat,d2tok(p.A0).c_str(),d2tok(p.A1).c_str(),d2tok(p.A2).c_str(),d2tok(p.phi).c_str(),d2tok(p.c0.re).c_str(),d2tok(p.c1.re).c_str());
     for(auto&b:s.blockproplist) printf("bp %s %s %d %s %s %s %s\n",d2tok(b.mu_x).c_str(),d2tok(b.mu_y).c_str(),b.LamType,d2tok(b.LamFill).c_str(),d2tok(b.J.re).c_str(),d2tok(b.Cduct).c_str(),d2tok(b.H_c).c_str());
     for(auto&p:s.circproplist) printf("cp %d %s %s\n",p.CircType,d2tok(p.Amps.re).c_str(),d2tok(p.dVolts.re).c_str());
-    for(auto&l:s.labellist) printf("lab %d %d %s\n",l.InCircuit,l.bIsWound?1:0,d2tok(l.MagDir).c_str());
+    for(auto&l:s.labellist) printf("lab %d %d %s %d\n",l.InCircuit,l.bIsWound?1:0,d2tok(l.MagDir).c_str(),l.IsExternal?1:0);
     for(int i=0;i<s.NumNodes;i++) printf("n %s %s %d\n",d2tok(s.meshnode[i].x).c_str(),d2tok(s.meshnode[i].y).c_str(),s.meshnode[i].BoundaryMarker);
     for(int i=0;i<s.NumEls;i++){ auto&e=s.meshele[i]; printf("e %d %d %d %d %d %d %d %d\n",e.p[0],e.p[1],e.p[2],e.lbl,e.blk,e.e[0],e.e[1],e.e[2]); }
     for(auto&p:s.pbclist) printf("pbc %d %d %d\n",p.x,p.y,p.t);
     printf("run\n"); fflush(stdout);
     CBigLinProb L; L.Precision=s.Precision;
     L.Create(s.NumNodes,s.BandWidth);
-    int ok=s.Static2D(L);
+    int ok=axi ? s.StaticAxisymmetric(L) : s.Static2D(L);
     fprintf(stderr,"static2d=%d\n",ok);
     return 0;
 }
